@@ -54,6 +54,17 @@ def extra_cases(tier):
             for n_ids in (1, 2, 3):
                 pop = dict(kind='comp', parts=[leaves[i] for i in combo]) if n > 1 else leaves[combo[0]]
                 out.append(dict(kind='enum', pop=pop, n_ids=n_ids))
+    # bounded-exhaustive reconfiguration programs: every <=2-part composition of one-dimensional elementary
+    # models, every single parameter fixed by name, then the number of individuals changed (and changed back)
+    elem = [e for e in leaves if e['kind'] != 'cov' and e['n_dim'] == 1]
+    for n in (1, 2):
+        for combo in itertools.product(range(len(elem)), repeat=n):
+            pop = dict(kind='comp', parts=[elem[i] for i in combo])
+            n_par = ref.pop_n_par(pop, 2)
+            for k in range(n_par):
+                for seq in ([2], [0], [2, 1]):          # set_n_ids(3) / (1) / (3) then (2)
+                    prog = [['fix', k]] + [['set_n_ids', a] for a in seq]
+                    out.append(dict(kind='pop', pop=pop, n_ids=2, prog=prog, enumerated=True))
     return out
 
 
@@ -106,7 +117,7 @@ def strategy(tier):
 def classify(spec):
     k = spec['kind']
     labs = ['kind:' + ('pop' if k == 'enum' else k)]
-    if k == 'enum':
+    if k == 'enum' or spec.get('enumerated'):
         labs.append('exhaustive')
     if k == 'pop' and spec['prog']:
         labs.append('reconfigured')
